@@ -335,6 +335,15 @@ func (e *Engine) verifyOne(key string, con *Contract, o runOpts) *FuncResult {
 		return res
 	}
 	discharge(res.Ctx, res.Goals, dischargeOpts{Timeout: o.Timeout, All: o.All, Workdir: o.Workdir, Par: o.Par})
+	var open []*Goal
+	for _, g := range res.Goals {
+		if g.Status == "unknown" && !g.ExpectSat {
+			open = append(open, g)
+		}
+	}
+	if len(open) > 0 {
+		discharge(res.Ctx, open, dischargeOpts{Timeout: o.Timeout, All: o.All, Workdir: o.Workdir, Par: 2, Split: true})
+	}
 	res.Secs = time.Since(start).Seconds()
 	return res
 }
